@@ -32,8 +32,13 @@ func fieldByAttr(rv reflect.Value, attr string) (reflect.Value, bool) {
 	return reflect.Value{}, false
 }
 
-// V converts between neutral values and generated Go types for one Spec.
-type V struct{ S *spec.Spec }
+// V converts between neutral values and generated Go types for one Spec. Types (optional) looks
+// up a generated service-package type by normalised name; it is needed for OneOf unions, whose
+// Go form is an interface-typed field holding one of the generated alternative types.
+type V struct {
+	S     *spec.Spec
+	Types func(name string) reflect.Type
+}
 
 // Set stores neutral value v (of design type t) into the settable rv.
 func (c V) Set(rv reflect.Value, t *spec.Type, v any) error {
@@ -137,6 +142,12 @@ func (c V) Set(rv reflect.Value, t *spec.Type, v any) error {
 			if !ok {
 				return fmt.Errorf("no field for attribute %q in %s", a.Name, rv.Type())
 			}
+			if a.T.K == spec.KUnion {
+				if err := c.setUnion(f, a.Name, a.T, av); err != nil {
+					return err
+				}
+				continue
+			}
 			if err := c.Set(f, a.T, av); err != nil {
 				return fmt.Errorf("%s: %w", a.Name, err)
 			}
@@ -229,6 +240,12 @@ func (c V) Get(rv reflect.Value, t *spec.Type) any {
 		for _, a := range e.Attrs {
 			f, ok := fieldByAttr(rv, a.Name)
 			if !ok {
+				continue
+			}
+			if a.T.K == spec.KUnion {
+				if v := c.getUnion(f, a.Name, a.T); v != nil {
+					out[a.Name] = v
+				}
 				continue
 			}
 			if v := c.Get(f, a.T); v != nil {
